@@ -647,9 +647,9 @@ CLAIMED["C02"] = dict(
          "drop_doctype off, no shadowrootmode attribute (C02_parse_eq_spec_total, Props/C02ParseTotal.lean: the further hypothesis "
          "EmptyOk of _facts - ignore_lf clear whenever the EMPTY character token that `<![CDATA[]]>` produces arrives - is proved "
          "as a joint invariant, parse_hist_empty). "
-         "NOT proved: C02_table_body_end_ok_partial (parse-error-only table lacks rb/rtc), handle_misnested_a_tags, parse "
-         "errors, the self-closing acknowledgement and declarative shadow roots; the per-insertion-mode rule arms (rules.rs) compared with an INDEPENDENT implementation — no complete independent Lean transcription of "
-         "section 13.2.6 exists here. That part is carried by (a) the differential against the patched html5lib 1.1 "
+         "NOT proved: C02_table_body_end_ok_partial (parse-error-only table lacks rb/rtc), parse errors, the self-closing "
+         "acknowledgement, declarative shadow roots, documents started in quirks / limited-quirks mode by TreeBuilderOpts, and "
+         "that the MODEL is the CODE: that tie is carried by (a) the differential against the patched html5lib 1.1 "
          "reference on documents and HTML-context fragments, scripting on/off (directed token families rendered as text, "
          "dispatcher cover, themed tag soup, doctype identifiers in mixed case / truncated / extended; thorough tier: "
          "0.93 M reference-compared parses, tree and quirks mode, both trees in the replay); (b) the tb correspondence "
